@@ -200,6 +200,14 @@ pub struct EnvCursor {
 
 fn attach_env(vm: &mut vm::VM<SimState>, spec: &EnvSpec, cursor: &EnvCursor) {
     vm.working_directory = Some(PathBuf::from(SIM_CWD));
+    let mut font_refs = vec![];
+    for (i, name) in FONT_NAMES.iter().enumerate() {
+        let cs = vm.cs_name_interner_mut().get_or_intern(name);
+        font_refs.push((i as u16 + 1, texlang::token::CommandRef::ControlSequence(cs)));
+    }
+    // The null font has no selector among the built-ins; `\the` of it falls back to \fontA's slot
+    // never: leave it unmapped (the repository unwraps, which is a C09 matter, not generated).
+    vm.state.env.font_refs = font_refs;
     let fs = SimFs::default();
     for (name, content) in &spec.files {
         fs.add(name, content);
